@@ -27,7 +27,7 @@ type cmpCfg struct {
 }
 
 var cmpConfigs = []cmpCfg{
-	{hx.Mem, []string{"/r/a", "/r/b"}, nil, []string{"/q/out", "/r0x"}, [2]int{6, 7}},
+	{hx.Mem, []string{"/r/a", "/r/b"}, nil, []string{"/q/out", "/r0x"}, [2]int{7, 8}},
 	{hx.Mem, []string{"/r/a", "/r/a/b"}, []string{"/r/x"}, []string{"/r/x/k"}, [2]int{4, 5}},
 	{hx.Mem, []string{"/r/a", "/r/a/b"}, []string{"/r/a"}, nil, [2]int{4, 5}}, // the skipped prefix is a prefix of a data key
 	{hx.Badger, []string{"/r/a", "/r/b"}, nil, nil, [2]int{3, 3}},
